@@ -60,6 +60,39 @@ Proof.
     intros _. destruct n as [|k]; [exact Hh|]. apply Hh2. lia.
 Qed.
 
+(* C05 for the same executions: each halted Step makes exactly one access, the read of the opcode byte at PC; no write, no port access *)
+Lemma halt_one_trace u cpu : WF cpu -> g_Memory cpu = UserMem -> g_Interrupt cpu = None ->
+  u8 (ram (g_W cpu) (g_PC cpu)) = 118 ->
+  trace (g_W (spec_step u cpu)) = EvRd (g_PC cpu) 118 :: trace (g_W cpu) /\ inputs (g_W (spec_step u cpu)) = inputs (g_W cpu).
+Proof.
+  intros Hwf Hm Hi H0. remember (spec_step u cpu) as r eqn:E. open_cpu cpu.
+  cbv_struct_in Hm. cbv_struct_in Hi. cbv_struct_in H0. wf_open Hwf. subst mem irq.
+  unfold spec_step in E. cbv_struct_in E. unfold step_instr in E.
+  cbv beta iota zeta delta [fetch_m1 fetch8 rd mem_get wget w_log inc16] in E. cbv_struct_in E.
+  rewrite H0, dm_halt in E. cbv beta iota zeta delta [exec] in E. cbv_struct_in E.
+  subst r; cbv_struct; split; reflexivity.
+Qed.
+Theorem halted_trace u n : forall cpu, WF cpu -> g_Memory cpu = UserMem -> g_Interrupt cpu = None ->
+  u8 (ram (g_W cpu) (g_PC cpu)) = 118 ->
+  trace (g_W (spec_iter u n cpu)) = repeat (EvRd (g_PC cpu) 118) n ++ trace (g_W cpu) /\
+  inputs (g_W (spec_iter u n cpu)) = inputs (g_W cpu).
+Proof.
+  induction n as [|n IH]; intros cpu Hwf Hm Hi H0; [split; reflexivity|].
+  cbn [spec_iter].
+  destruct (halt_one_step u cpu Hwf Hm Hi H0) as [Hs _].
+  destruct (halt_one_trace u cpu Hwf Hm Hi H0) as [Ht Hin].
+  unfold halted_same in Hs. decompose [and] Hs. clear Hs.
+  assert (Hwf1 : WF (spec_step u cpu)) by (apply spec_step_wf; exact Hwf).
+  assert (Hm1 : g_Memory (spec_step u cpu) = UserMem) by congruence.
+  assert (Hi1 : g_Interrupt (spec_step u cpu) = None) by congruence.
+  assert (H01 : u8 (ram (g_W (spec_step u cpu)) (g_PC (spec_step u cpu))) = 118) by congruence.
+  destruct (IH (spec_step u cpu) Hwf1 Hm1 Hi1 H01) as [Ht2 Hin2].
+  split; [|congruence].
+  rewrite Ht2, Ht. replace (g_PC (spec_step u cpu)) with (g_PC cpu) by congruence.
+  change (repeat (EvRd (g_PC cpu) 118) (S n)) with (EvRd (g_PC cpu) 118 :: repeat (EvRd (g_PC cpu) 118) n).
+  rewrite (repeat_cons n (EvRd (g_PC cpu) 118)). rewrite <- app_assoc. reflexivity.
+Qed.
+
 (* the same for the GENERATED Step (iter = n calls of the Step translated from the Go source) *)
 From Z80V Require Import Proofs.Iter.
 Theorem halted_steps_gen n cpu : WF cpu -> g_Memory cpu = UserMem -> g_Interrupt cpu = None ->
@@ -77,3 +110,8 @@ Proof.
   - cbv [WF WF_gpr WF_reg WF_mem WF_irq halt_demo cpu0]; cbv_struct; unfold is8, is16; repeat split; try lia; constructor.
   - repeat split; reflexivity.
 Qed.
+Theorem halted_trace_gen n cpu : WF cpu -> g_Memory cpu = UserMem -> g_Interrupt cpu = None ->
+  u8 (ram (g_W cpu) (g_PC cpu)) = 118 ->
+  trace (g_W (iter n cpu)) = repeat (EvRd (g_PC cpu) 118) n ++ trace (g_W cpu) /\
+  inputs (g_W (iter n cpu)) = inputs (g_W cpu).
+Proof. intros H Hm Hi H0. rewrite iter_ok by exact H. exact (halted_trace impl_unspec n cpu H Hm Hi H0). Qed.
